@@ -37,7 +37,7 @@ def gen_cases(seed, tier):
     n = 220 if tier == "quick" else 3000
     cases = []
     for i in range(n):
-        wk = str(rng.choice(["prim", "prim", "prim", "flagged", "product", "moved", "setvol", "density_bool"]))
+        wk = str(rng.choice(["prim", "prim", "prim", "flagged", "product", "moved", "setvol", "density_bool", "history", "polyhole"]))
         k = int(rng.choice([0, 0, 1, 2, 3, 5, 8]))
         dim = int(rng.choice([1, 2, 2, 2, 3]))
         c = {"wk": wk, "seed": int(rng.integers(0, 2 ** 31))}
@@ -48,8 +48,11 @@ def gen_cases(seed, tier):
                 dom["spec"] = {"prim": "point", "var": "x", "dim": d_, "point": [float(v) for v in rng.uniform(-2, 2, d_)]}
                 dom["info"]["dep"] = False
                 dom["info"]["desc"] = "pt"
-        elif wk == "flagged":
-            dom = _flagged(rng, k, dim)
+        elif wk in ("flagged", "history"):
+            dom = _flagged(rng, k if wk == "flagged" else int(rng.choice([0, 0, 1, 2])), dim) if rng.random() < 0.7 or wk == "flagged" \
+                else _indep_product(rng, int(rng.choice([0, 0, 1])))
+        elif wk == "polyhole":
+            dom = _polyhole(rng)
         elif wk == "product":
             dom = _indep_product(rng, k)
         elif wk == "moved":
@@ -71,6 +74,27 @@ def _flagged(rng, k, dim):
         if s.get("flag"):
             return dom
     return dom
+
+
+def _polyhole(rng):
+    """polygon with 1-2 holes (shell and holes in random vertex order)"""
+    c = rng.uniform(-2, 2, 2)
+    w, h = rng.uniform(3, 5, 2)
+    shell = [[c[0], c[1]], [c[0] + w, c[1]], [c[0] + w, c[1] + h], [c[0], c[1] + h]]
+    holes = []
+    for j in range(int(rng.integers(1, 3))):
+        hx = c[0] + (0.15 + 0.45 * j) * w
+        hy = c[1] + rng.uniform(0.2, 0.5) * h
+        hw, hh = 0.25 * w * rng.uniform(0.5, 1), 0.3 * h * rng.uniform(0.5, 1)
+        ring = [[hx, hy], [hx + hw, hy], [hx + hw * rng.uniform(0.3, 1), hy + hh]] if rng.random() < 0.5 else \
+            [[hx, hy], [hx + hw, hy], [hx + hw, hy + hh], [hx, hy + hh]]
+        if rng.random() < 0.5:
+            ring = ring[::-1]
+        holes.append([[float(a), float(b)] for a, b in ring])
+    if rng.random() < 0.5:
+        shell = shell[::-1]
+    spec = {"polyhole": True, "shell": [[float(a), float(b)] for a, b in shell], "holes": holes}
+    return {"spec": spec, "rows": {}, "k": 0, "info": {"kind": "polyhole", "dim": 2, "dep": False, "relations": [], "desc": "G%dh" % len(holes)}}
 
 
 def _indep_product(rng, k):
@@ -134,9 +158,110 @@ def check_volume(D, node_measure, Pp, k, dep, res, mech, what):
                                 (what, vv[i], node_measure[i], i, rel[i]), cls=type(D).__name__, **mech))
 
 
+def _ring_area_len(r):
+    r = np.asarray(r, float)
+    x, y = r[:, 0], r[:, 1]
+    return 0.5 * abs(float((x * np.roll(y, -1) - np.roll(x, -1) * y).sum())), float(np.linalg.norm(np.roll(r, -1, 0) - r, axis=1).sum())
+
+
+def run_polyhole(case):
+    import shapely.geometry as sg
+    from torchphysics.problem.domains.domain2D.shapely_polygon import ShapelyPolygon
+    from torchphysics.problem.spaces import Space, Points
+    res = {"cls": "polyhole|%s|k0|const" % case["info"]["desc"], "judged": 0, "nontrivial": False, "viol": [], "counters": {}}
+    sp = case["spec"]
+    mech = {"wk": "polyhole", "root": "polyhole", "dep": False, "k": "k0", "holes": len(sp["holes"])}
+    a0, l0 = _ring_area_len(sp["shell"])
+    area, length = a0, l0
+    for hrg in sp["holes"]:
+        a, l = _ring_area_len(hrg)
+        area -= a
+        length += l
+    D = ShapelyPolygon(Space({"x": 2}), shapely_polygon=sg.Polygon(sp["shell"], sp["holes"]))
+    probes.install()
+    check_volume(D, np.array([area]), Points.empty(), 0, False, res, dict(mech, target="interior"), "polygon with holes")
+    check_volume(D.boundary, np.array([length]), Points.empty(), 0, False, res, dict(mech, target="boundary"), "boundary of polygon with holes")
+    for want in case["dens"]:
+        for tname, Dt, mu in (("interior", D, area), ("boundary", D.boundary, length)):
+            d = want / mu
+            lam = d * mu
+            mm = dict(mech, target=tname, call="density")
+            try:
+                counts = [len(Dt.sample_random_uniform(d=d)) for _ in range(1 if tname == "boundary" else 12)]
+                g = len(Dt.sample_grid(d=d))
+            except Exception as e:
+                res["viol"].append(viol("exception", "polygon with holes, %s density sampling raised %s in %s: %s" % (tname, type(e).__name__,
+                                        exc_site(e), str(e)[:200]), exc=type(e).__name__, site=exc_site(e), **mm))
+                continue
+            res["judged"] += 1
+            res["counters"]["density_random_calls"] = res["counters"].get("density_random_calls", 0) + len(counts)
+            if tname == "boundary":
+                if not (math.ceil(lam * (1 - 2e-6)) <= counts[0] <= math.ceil(lam * (1 + 2e-6))):
+                    res["viol"].append(viol("density_count", "boundary of a polygon with %d holes: sample_random_uniform(d=%.5g) returned %d points, "
+                                            "ceil(d*length) = %d (length %.6g incl. inner rings)" % (len(sp["holes"]), d, counts[0], math.ceil(lam), mu),
+                                            fn="random", **mm))
+            else:
+                mean = float(np.mean(counts))
+                slack = 2.0 + 6.5 * math.sqrt(max(lam, 1.0) / len(counts)) + 1e-3 * lam
+                if abs(mean - lam) > slack:
+                    res["viol"].append(viol("density_mean_count", "polygon with holes: mean count %.2f over %d calls for d*area = %.2f" %
+                                            (mean, len(counts), lam), fn="random", **mm))
+            if g > math.ceil(lam * (1 + 2e-6)):
+                res["viol"].append(viol("density_grid_count", "%s of a polygon with holes: sample_grid(d=%.5g) returned %d points, ceil(d*measure) = %d" %
+                                        (tname, d, g, math.ceil(lam)), fn="grid", **mm))
+    res["nontrivial"] = res["judged"] > 0
+    return res
+
+
+def run_history(case, D, node, Pp, env, res, mech, info):
+    """volume() of a composite, then set_volume() on a part, then volume() again: the composite must follow the algebra
+    with the user-set value (also through a Translate wrapper and for density sampling)"""
+    import torchphysics as tp
+    k = case["k"]
+    kk = max(k, 1)
+    spec = case["spec"]
+    m0 = node.measure(env, kk)
+    if m0 is None or "op" not in spec:
+        return
+    check_volume(D, m0, Pp, k, bool(node.free()), res, dict(mech, target="before"), info["desc"])
+    part = "a" if case["seed"] % 2 == 0 else "b"
+    Dpart = D.domain_a if part == "a" else D.domain_b
+    uv = case["uservol"]
+    ma, mb = node.a.measure(env, kk), node.b.measure(env, kk)
+    if part == "a":
+        ma = np.full(kk, uv)
+    else:
+        mb = np.full(kk, uv)
+    exp = {"union": ma + mb, "cut": ma - mb, "product": ma * mb}[spec["op"]]
+    if (exp <= 0).any():
+        return
+    try:
+        Dpart.set_volume(uv)
+    except Exception as e:
+        res["viol"].append(viol("exception", "set_volume on a part of %s raised %r" % (info["desc"], e), exc=type(e).__name__, site=exc_site(e), **mech))
+        return
+    res["counters"]["history_steps"] = res["counters"].get("history_steps", 0) + 1
+    check_volume(D, exp, Pp, k, True, res, dict(mech, target="after_set_volume_on_part"), "%s after set_volume(%.3g) on operand %s" % (info["desc"], uv, part))
+    T = tp.domains.Translate(D, [0.5] * node.dim())
+    check_volume(T, exp, Pp, k, True, res, dict(mech, target="translate_after_set_volume_on_part"), "Translate(%s) after set_volume on operand %s" % (info["desc"], part))
+    if k <= 1 and spec["op"] == "product":
+        d = 40.0 / float(exp[0])
+        try:
+            cnt = len(D.sample_random_uniform(d=d, params=Pp))
+            res["judged"] += 1
+            if not (math.ceil(40.0 * (1 - 1e-5)) <= cnt <= math.ceil(40.0 * (1 + 1e-5))):
+                res["viol"].append(viol("density_count", "%s after set_volume on operand %s: density sampling returned %d points, d*volume = 40" %
+                                        (info["desc"], part, cnt), fn="random", call="density", **mech))
+        except Exception as e:
+            res["viol"].append(viol("exception", "density sampling of %s after set_volume raised %r" % (info["desc"], e), exc=type(e).__name__,
+                                    site=exc_site(e), **mech))
+
+
 def run_case(case):
     import torch
     info = case["info"]
+    if case["wk"] == "polyhole":
+        return run_polyhole(case)
     res = {"cls": "", "judged": 0, "nontrivial": False, "viol": [], "counters": {}}
     D, node, Pp, env = sampling.build_case(case)
     k = case["k"]
@@ -160,6 +285,8 @@ def run_case(case):
                     check_volume(Ds, np.ones(kk), Pp, k, bool(node.free()), res, dict(mech, target="side"), "%s side of %s" % (side, info["desc"]))
         except Exception as e:
             res["viol"].append(viol("exception", "boundary of %s: %r" % (info["desc"], e), exc=type(e).__name__, site=exc_site(e), **mech))
+    if wk == "history":
+        run_history(case, D, node, Pp, env, res, mech, info)
     if wk == "setvol":
         # a user-set volume overrides the computed one: number, and function of the parameters
         uv = case["uservol"]
